@@ -21,12 +21,30 @@ from .fold import (ClassRef, ExtRef, Folder, FuncRef, Unfoldable, _BINOPS, _BUIL
 from .model import AnalysisError, ClassInfo, Module, Unsupported, unparse
 
 
+import os as _os
+_DEBUG = bool(_os.environ.get('MIDOLINT_DEBUG'))
+
+
 class Opaque:
     def __init__(self, why=''):
         self.why = why
 
     def __repr__(self):
         return f'Opaque({self.why})'
+
+
+class ATypeOf:
+    """type(x) of a symbolic number: which of the numeric types it is exactly is not known."""
+    def __init__(self, of):
+        self.of = of
+
+    def may_be(self, t):
+        if isinstance(self.of, Poly):
+            return t in (int, float, bool)
+        return t in (int, bool)
+
+    def __repr__(self):
+        return f'type({self.of!r})'
 
 
 class SeqVar:
@@ -305,6 +323,31 @@ class AbsRaise(Exception):
         self.attrs = attrs
 
 
+class _Undecided(Exception):
+    """Raised instead of splitting the path while an expression is only being looked at."""
+
+
+def _pure_expr(n, env):
+    """An expression whose evaluation runs no code of the program and changes nothing: names, constants, comparisons and
+    arithmetic on them, isinstance()/type()/len() of them."""
+    if isinstance(n, (ast.Name, ast.Constant)):
+        return True
+    if isinstance(n, ast.Compare):
+        return _pure_expr(n.left, env) and all(_pure_expr(c, env) for c in n.comparators)
+    if isinstance(n, ast.BoolOp):
+        return all(_pure_expr(v, env) for v in n.values)
+    if isinstance(n, ast.UnaryOp):
+        return _pure_expr(n.operand, env)
+    if isinstance(n, ast.BinOp):
+        return _pure_expr(n.left, env) and _pure_expr(n.right, env)
+    if isinstance(n, (ast.Tuple, ast.List)):
+        return all(_pure_expr(v, env) for v in n.elts)
+    if isinstance(n, ast.Call) and isinstance(n.func, ast.Name) and n.func.id in ('isinstance', 'type', 'len') and n.func.id not in env \
+            and not n.keywords:
+        return all(_pure_expr(a, env) for a in n.args) and not any(isinstance(env.get(a.id), AObj) for a in n.args if isinstance(a, ast.Name))
+    return False
+
+
 class _Ret(Exception):
     def __init__(self, v):
         self.v = v
@@ -316,6 +359,88 @@ class _Brk(Exception):
 
 class _Cont(Exception):
     pass
+
+
+def _distinct_outcomes(results, log_key=None):
+    """Paths that end the same way (same value or exception from the same statement, same state of everything reachable,
+    same recorded events) are one behaviour: two tests in front of the same code do not make two outcomes."""
+    seen, out = set(), []
+    for o in results:
+        if getattr(o, '_key', None) is None:
+            try:
+                lk = (log_key or skey)(getattr(o, 'log', ()))
+                if o.kind == 'raise':
+                    o._key = ('raise', o.exc, id(o.node), o.implicit, lk)
+                else:
+                    o._key = ('return', skey(o.value), lk)
+            except RecursionError:
+                o._key = ('unique', id(o))
+        if o._key in seen:
+            continue
+        seen.add(o._key)
+        out.append(o)
+    return out
+
+
+_PURE_BUILTINS = {'isinstance', 'type', 'len', 'int', 'float', 'str', 'repr', 'bool', 'abs', 'min', 'max', 'range', 'format',
+                  'divmod', 'round', 'ord', 'chr', 'hex', 'callable', 'issubclass', 'id'}
+
+
+def _plain_value(v, depth=0):
+    """Values a function cannot change and whose use runs no code of the program."""
+    if v is None or isinstance(v, (bool, int, float, str, bytes, type, AV, Poly, Opaque, ATypeOf, ExtRef, ClassRef, FuncRef, range)):
+        return True
+    if type(v).__name__ in ('SStr', 'LenV'):
+        return True
+    if depth > 4:
+        return False
+    if isinstance(v, (tuple, list, set, frozenset)):
+        return all(_plain_value(x, depth + 1) for x in v)
+    if isinstance(v, dict):
+        return all(_plain_value(x, depth + 1) for x in v.values())
+    if isinstance(v, AList):
+        return v.kind in ('list', 'tuple', 'bytes', 'bytearray', 'set', 'frozenset') and getattr(v, 'cls', None) is None \
+            and all(isinstance(x, SeqVar) or _plain_value(x, depth + 1) for x in v.items)
+    if isinstance(v, ADict):
+        return getattr(v, 'owner', None) is None and all(_plain_value(x, depth + 1) for x in v.d.values())
+    return False
+
+
+def skey(v):
+    """A structural key of an abstract value (with the sharing between its mutable parts): equal keys, same behaviour."""
+    memo = {}
+
+    def w(x):
+        if x is None or isinstance(x, (bool, int, float, str, bytes, type)):
+            return (type(x).__name__, repr(x))
+        if isinstance(x, (AV, Poly, Opaque, ATypeOf, ExtRef, ClassRef, FuncRef, SeqVar, range)) or type(x).__name__ in ('SStr', 'LenV', 'Sym'):
+            return ('v', type(x).__name__, repr(x))
+        if isinstance(x, tuple):
+            return ('t',) + tuple(w(i) for i in x)
+        if isinstance(x, ast.AST):
+            return ('node', type(x).__name__, getattr(x, 'lineno', 0), getattr(x, 'col_offset', 0))
+        if hasattr(x, 'qname') and not isinstance(x, (AObj, AList, ADict)):
+            return ('info', type(x).__name__, x.qname)
+        oid = id(x)
+        if oid in memo:
+            return ('ref', memo[oid])
+        n = memo[oid] = len(memo)
+        if isinstance(x, AList):
+            return ('AList', n, x.kind, getattr(getattr(x, 'cls', None), 'qname', None), tuple(w(i) for i in x.items))
+        if isinstance(x, ADict):
+            return ('ADict', n, tuple((w(k), w(val)) for k, val in x.d.items()))
+        if isinstance(x, AObj):
+            return ('AObj', n, getattr(x.cls, 'qname', None), tuple((k, w(val)) for k, val in x.attrs.items()), w(tuple(x.stores)))
+        if isinstance(x, list):
+            return ('l', n) + tuple(w(i) for i in x)
+        if isinstance(x, (set, frozenset)):
+            return ('s', n, tuple(sorted(repr(w(i)) for i in x)))
+        if isinstance(x, dict):
+            return ('d', n, tuple((w(k), w(val)) for k, val in x.items()))
+        if isinstance(x, AbsRaise):
+            return ('raise', x.exc, w(x.node), x.implicit)
+        return ('o', n, type(x).__name__, repr(x))
+    return w(v)
 
 
 class Outcome:
@@ -698,7 +823,17 @@ class AbsInt:
         self.value_summaries = {}       # id(callable value, e.g. a closure) -> callable(interp, args, kwargs, node)
 
     # --------------------------------------------------------------- explore
-    def explore(self, thunk, limit=64):
+    def explore(self, thunk, limit=64, merge=True):
+        """All outcomes of thunk().  merge=False keeps paths apart that end the same way (for callers that read the recorded
+        events of one path as if it were the only one)."""
+        outer_bounds = {k: list(b) for k, b in LEN_BOUNDS.items()}
+        try:
+            return self._explore(thunk, limit, outer_bounds, merge)
+        finally:
+            LEN_BOUNDS.clear()
+            LEN_BOUNDS.update(outer_bounds)
+
+    def _explore(self, thunk, limit, outer_bounds, merge=True):
         results = []
         stack = [[]]
         while stack:
@@ -708,6 +843,8 @@ class AbsInt:
             self.depth = 0
             self._callstack = []
             EVENT_LOG.clear()
+            LEN_BOUNDS.clear()
+            LEN_BOUNDS.update({k: list(b) for k, b in outer_bounds.items()})        # (what the caller assumes holds on every path)
             try:
                 v = self.consume(thunk())
                 out = Outcome('return', v)
@@ -717,13 +854,23 @@ class AbsInt:
                 out = Outcome('return', r.v)
             out.decisions = list(self._trace)
             out.log = list(EVENT_LOG)
+            out.len_bounds = {k: tuple(b) for k, b in LEN_BOUNDS.items()}
+            out.globals_after = dict(self.global_store)
             results.append(out)
             for i in range(len(pre), len(self._trace)):
                 alt = [d[1] for d in self._trace[:i]] + [not self._trace[i][1]]
                 stack.append(alt)
             if len(results) > limit:
-                raise Unsupported('too many abstract outcomes')
-        return results
+                if merge:
+                    results = _distinct_outcomes(results, self._log_key)
+                if len(results) > limit:
+                    raise Unsupported('too many abstract outcomes')
+        return _distinct_outcomes(results, self._log_key) if merge else results
+
+    def _log_key(self, log):
+        """The recorded events as far as they are behaviour: that a function without effects was entered is not."""
+        return skey(tuple(e for e in log if not (e[0] == 'enter' and len(e) > 3 and hasattr(e[3], 'node') and e[4] is None
+                                                and self.pure_function(e[3]))))
 
     def consume(self, v):
         """Run generator objects (also inside tuples/lists) to completion: what a caller doing list(gen) would see."""
@@ -736,6 +883,8 @@ class AbsInt:
         return v
 
     def decide(self, node, why=''):
+        if getattr(self, '_peek', 0):
+            raise _Undecided()
         i = len(self._trace)
         choice = self._choices[i] if i < len(self._choices) else True
         self._trace.append((node, choice, why))
@@ -825,6 +974,15 @@ class AbsInt:
         log_event('enter', info.qname, args[0] if args else None, info, closure, self.depth, args[1] if len(args) > 1 else None)
         stack.append(key)
         try:
+            if closure is None and not getattr(self, 'no_probe', False) and self.pure_function(info) \
+                    and all(_plain_value(v) for k, v in env.items() if not k.startswith('__')):
+                # a function without effects (it compares, returns or raises): when all its paths end the same way the
+                # caller goes on along one path - "type(x) is int" shortcuts in front of the general test, and the like
+                merged = self._probe_pure(fn, env, info)
+                if merged is not None:
+                    if merged[0] == 'raise':
+                        raise merged[1]
+                    return merged[1]
             self.ex_block(fn.body, env, info.module)
         except _Ret as r:
             return r.v
@@ -832,6 +990,115 @@ class AbsInt:
             self.depth -= 1
             stack.pop()
         return None
+
+    def pure_function(self, info, _seen=None):
+        cache = self.__dict__.setdefault('_pure_cache', {})
+        if info.qname in cache:
+            return cache[info.qname]
+        seen = _seen if _seen is not None else set()
+        if info.qname in seen:
+            return True
+        seen.add(info.qname)
+        res = self._pure_body(info, seen)
+        if _seen is None or not res:
+            cache[info.qname] = res
+        return res
+
+    def _pure_body(self, info, seen):
+        fn = info.node
+        if fn.decorator_list or _is_generator(fn) or info.qname in self.summaries:
+            return False
+        a = fn.args
+        local = {x.arg for x in a.posonlyargs + a.args + a.kwonlyargs}
+        if a.vararg:
+            local.add(a.vararg.arg)
+        if a.kwarg:
+            local.add(a.kwarg.arg)
+        for n in ast.walk(fn):
+            if isinstance(n, ast.Name) and isinstance(n.ctx, ast.Store):
+                local.add(n.id)
+        okfuncs = set()
+        for n in ast.walk(fn):
+            if n is fn:
+                continue
+            if isinstance(n, (ast.Yield, ast.YieldFrom, ast.Await, ast.Global, ast.Nonlocal, ast.With, ast.AsyncWith, ast.Lambda,
+                              ast.FunctionDef, ast.AsyncFunctionDef, ast.ClassDef, ast.Delete, ast.Import, ast.ImportFrom,
+                              ast.AsyncFor, ast.Match)):
+                return False
+            if isinstance(n, (ast.Attribute, ast.Subscript)) and isinstance(n.ctx, (ast.Store, ast.Del)):
+                return False
+            if isinstance(n, ast.Call):
+                f = n.func
+                if isinstance(f, ast.Name) and f.id not in local:
+                    if f.id in _PURE_BUILTINS or f.id.endswith(('Error', 'Exception', 'Warning')):
+                        okfuncs.add(id(f))
+                        continue
+                    try:
+                        v = self.f.global_value(info.module, f.id)
+                    except Exception:
+                        return False
+                    if isinstance(v, FuncRef) and self.pure_function(v.info, seen):
+                        okfuncs.add(id(f))
+                        continue
+                    return False
+                if isinstance(f, ast.Attribute) and isinstance(f.value, (ast.Constant, ast.JoinedStr)) \
+                        and f.attr in ('format', 'join', 'upper', 'lower', 'strip'):
+                    okfuncs.add(id(f))
+                    continue
+                return False
+        for n in ast.walk(fn):
+            if isinstance(n, ast.Attribute) and id(n) not in okfuncs:
+                # attributes of module-level names only (numbers.Real): an attribute of an argument may be a property
+                if not (isinstance(n.value, ast.Name) and n.value.id not in local):
+                    return False
+        return True
+
+    def _probe_pure(self, fn, env, info):
+        base = len(EVENT_LOG)
+        saved = (self._choices, self._trace, self.depth, list(self._callstack))
+        saved_bounds = {k: list(b) for k, b in LEN_BOUNDS.items()}
+        outs = []
+        todo = [[]]
+        ok = True
+        try:
+            while todo:
+                pre = todo.pop()
+                self._choices = list(pre)
+                self._trace = []
+                del EVENT_LOG[base:]
+                LEN_BOUNDS.clear()
+                LEN_BOUNDS.update({k: list(b) for k, b in saved_bounds.items()})
+                try:
+                    self.ex_block(fn.body, dict(env), info.module)
+                    o = ('return', None)
+                except _Ret as r:
+                    o = ('return', r.v)
+                except AbsRaise as ex:
+                    o = ('raise', ex)
+                except (Unsupported, _GenEscape, _Brk, _Cont):
+                    ok = False
+                    break
+                tail = EVENT_LOG[base:]
+                if o[0] == 'raise':
+                    k = ('raise', o[1].exc, id(o[1].node), o[1].implicit, self._log_key(tail))
+                else:
+                    k = ('return', skey(o[1]), self._log_key(tail))
+                outs.append((k, o, tail))
+                for i in range(len(pre), len(self._trace)):
+                    todo.append([d[1] for d in self._trace[:i]] + [not self._trace[i][1]])
+                if len(outs) > 24:
+                    ok = False
+                    break
+        finally:
+            self._choices, self._trace, self.depth = saved[0], saved[1], saved[2]
+            self._callstack[:] = saved[3]
+            del EVENT_LOG[base:]
+            LEN_BOUNDS.clear()
+            LEN_BOUNDS.update(saved_bounds)
+        if not ok or len({k for k, _, _ in outs}) != 1:
+            return None
+        EVENT_LOG.extend(outs[0][2])
+        return outs[0][1]
 
     def ev_default(self, expr, module):
         """A parameter default is evaluated once, when the def statement runs (import time): later writes to module globals
@@ -913,6 +1180,16 @@ class AbsInt:
             self._raise_attrs = None
             name = self.exc_name(st, env, m)
             attrs, self._raise_attrs = self._raise_attrs, None
+            if isinstance(st.exc, ast.Call) and attrs is None:
+                # the arguments of the exception are evaluated before anything is raised: a message that cannot be built
+                # (a format string with more fields than arguments) raises something else instead
+                for a_ in list(st.exc.args) + [k.value for k in st.exc.keywords]:
+                    if isinstance(a_, (ast.Constant, ast.Name)):
+                        continue
+                    try:
+                        self.ev(a_, env, m)
+                    except Unsupported:
+                        pass
             raise AbsRaise(name, st, attrs=attrs)
         elif isinstance(st, ast.Pass):
             pass
@@ -982,7 +1259,7 @@ class AbsInt:
                     self.ex_block(st.body, env, m)
                 except AbsRaise as e:
                     for h in st.handlers:
-                        if any(exc_is(e.exc, hn, self.extra_exc_parents) for hn in handler_names(h)):
+                        if any(exc_is(e.exc, hn, self.extra_exc_parents) for hn in self.handler_names(h, env, m)):
                             if h.name:
                                 env[h.name] = AExcValue(e.exc, e.attrs) if getattr(e, 'attrs', None) else Opaque('exception')
                             self.ex_block(h.body, env, m)
@@ -1326,6 +1603,34 @@ class AbsInt:
                 return
         self.ex_with(st, i + 1, env, m)
 
+    def _exc_class_name(self, x, env, m):
+        """The dotted name of an exception class of the standard library reached through an import alias
+        (from queue import Empty -> queue.Empty); None when the spelling is all there is."""
+        if not isinstance(x, (ast.Name, ast.Attribute)):
+            return None
+        try:
+            self._peek = getattr(self, '_peek', 0) + 1
+            try:
+                v = self.ev(x, env, m)
+            finally:
+                self._peek -= 1
+        except Exception:       # noqa: BLE001
+            return None
+        if isinstance(v, ExtRef):
+            return v.name
+        if isinstance(v, tuple) and len(v) == 2 and v[0] == 'excclass':
+            return v[1]
+        return None
+
+    def handler_names(self, h, env, m):
+        names = handler_names(h)
+        if h.type is not None:
+            for x in (h.type.elts if isinstance(h.type, ast.Tuple) else [h.type]):
+                r = self._exc_class_name(x, env, m)
+                if r is not None and r not in names:
+                    names.append(r)
+        return names
+
     def exc_name(self, st: ast.Raise, env, m):
         if st.exc is None:
             return 'reraise'
@@ -1350,6 +1655,9 @@ class AbsInt:
             return v.cls.name
         if isinstance(e, ast.Call):
             e = e.func
+        r = self._exc_class_name(e, env, m)
+        if r is not None and '.' in r and '.' not in unparse(e):
+            return r
         return unparse(e)
 
     def assign(self, t, v, env, m):
@@ -1420,6 +1728,16 @@ class AbsInt:
             base = self.ev(t.value, env, m)
             if isinstance(base, AObj) and base.attrs.get('__frozen__') is True and '__dataclass_fields__' in base.attrs:
                 raise AbsRaise('AttributeError', t, implicit=True, msg='cannot assign to field of a frozen dataclass')
+            kls = base.cls if isinstance(base, AObj) else getattr(base, 'cls', None) if isinstance(base, AList) else None
+            if kls is not None:
+                # a property of the class: the assignment runs its setter (there is none: AttributeError)
+                o, getter = self.p.lookup_method(kls, t.attr)
+                if getter is not None and any(isinstance(d, ast.Name) and d.id == 'property' for d in getter.node.decorator_list):
+                    o, setter = self.p.lookup_method(kls, f'{t.attr}@setter')
+                    if setter is None:
+                        raise AbsRaise('AttributeError', t, implicit=True, msg=f"property '{t.attr}' has no setter")
+                    self.call_function(setter, [base, v], {}, t)
+                    return
             if isinstance(base, AObj):
                 if base.cls is not None:
                     o, sa = self.p.lookup_method(base.cls, '__setattr__')
@@ -1628,6 +1946,12 @@ class AbsInt:
             return base.info.name
         if isinstance(base, AList) and e.attr == '__class__' and getattr(base, 'cls', None) is not None:
             return ClassRef(base.cls)
+        if isinstance(base, AList) and getattr(base, 'cls', None) is not None and not e.attr.startswith('__'):
+            o, fn = self.p.lookup_method(base.cls, e.attr)
+            if fn is not None:
+                if any(isinstance(d, ast.Name) and d.id == 'property' for d in fn.node.decorator_list):
+                    return self.call_function(fn, [base], {}, e)
+                return ('bound', base, fn)
         if isinstance(base, ClassRef):
             v = self.p.class_attr(base.info, e.attr)
             if v is not None:
@@ -1749,6 +2073,12 @@ class AbsInt:
         is_and = isinstance(e.op, ast.And)
         last = None
         for i, x in enumerate(e.values):
+            if i < len(e.values) - 1 and all(_pure_expr(y, env) for y in e.values[i:]):
+                # an operand that cannot be decided, in front of operands that settle the result whichever way it goes
+                # ("type(x) is not int and not isinstance(x, Integral)" for an integer): no need to split the path
+                fixed = self._peek_rest(e, i, env, m, is_and)
+                if fixed is not _NO:
+                    return fixed
             last = self.ev(x, env, m)
             if i == len(e.values) - 1:
                 return last             # the value of the last operand is the result, whatever its truth
@@ -1758,6 +2088,30 @@ class AbsInt:
             if not is_and and t:
                 return last if _is_concrete(last) or isinstance(last, (FuncRef, AObj, AList, ADict)) else True
         return last if _is_concrete(last) else is_and
+
+    def _peek_rest(self, e, i, env, m, is_and):
+        self._peek = getattr(self, '_peek', 0) + 1
+        try:
+            try:
+                self.truth(self.ev(e.values[i], env, m), e.values[i])
+                return _NO              # decided: the ordinary evaluation deals with it
+            except _Undecided:
+                pass
+            for y in e.values[i + 1:]:
+                try:
+                    v = self.ev(y, env, m)
+                    t = self.truth(v, y)
+                except _Undecided:
+                    return _NO
+                if is_and and not t:
+                    return False        # (only the truth of such a result is ever used: its operands are tests)
+                if not is_and and t:
+                    return True
+            return _NO
+        except (AbsRaise, Unsupported):
+            return _NO
+        finally:
+            self._peek -= 1
 
     def _v_BinOp(self, e, env, m):
         return self.binop(e.op, self.ev(e.left, env, m), self.ev(e.right, env, m), e)
@@ -1897,7 +2251,16 @@ class AbsInt:
             r = self.ev(right, env, m)
             res = self.compare(op, left, r, e)
             if res is None:
-                res = self.decide(e, f'{unparse(e)} undecided')
+                if _DEBUG:
+                    print('DBG-CMP', getattr(e, 'lineno', None), unparse(e), repr(left)[:300], repr(r)[:300])
+                if isinstance(left, LenV) and isinstance(r, int) and len(left.vars) == 1:
+                    res = self.decide(e, f'length: {unparse(e)}')
+                    _narrow_len(op, left, r, res)
+                elif isinstance(r, LenV) and isinstance(left, int) and len(r.vars) == 1:
+                    res = self.decide(e, f'length: {unparse(e)}')
+                    _narrow_len(_flip(op), r, left, res)
+                else:
+                    res = self.decide(e, f'{unparse(e)} undecided')
             if not res:
                 return False
             left = r
@@ -1939,6 +2302,26 @@ class AbsInt:
         return res
 
     def compare(self, op, a, b, node):
+        if isinstance(a, ATypeOf) or isinstance(b, ATypeOf):
+            if isinstance(op, (ast.Is, ast.IsNot, ast.Eq, ast.NotEq)):
+                t, other = (a, b) if isinstance(a, ATypeOf) else (b, a)
+                same = isinstance(op, (ast.Is, ast.Eq))
+                if isinstance(other, ATypeOf):
+                    return same if other.of is t.of else None
+                if isinstance(other, type):
+                    return None if t.may_be(other) else (not same)
+                if isinstance(other, (ClassRef, ExtRef)) or other is None:
+                    return not same
+                return None
+            if isinstance(op, (ast.In, ast.NotIn)) and isinstance(a, ATypeOf):
+                items = b.items if isinstance(b, AList) else (list(b) if isinstance(b, (tuple, list, set, frozenset)) else None)
+                if items is not None and all(isinstance(x, (type, ClassRef, ExtRef)) for x in items):
+                    if not any(isinstance(x, type) and a.may_be(x) for x in items):
+                        return isinstance(op, ast.NotIn)
+                return None
+            return None
+        if isinstance(a, type) and isinstance(b, type) and isinstance(op, (ast.Is, ast.IsNot, ast.Eq, ast.NotEq)):
+            return (a is b) if isinstance(op, (ast.Is, ast.Eq)) else (a is not b)
         if type(a).__name__ == 'SStr' or type(b).__name__ == 'SStr':
             if isinstance(op, (ast.Eq, ast.NotEq)):
                 other = b if type(a).__name__ == 'SStr' else a
@@ -2007,6 +2390,10 @@ class AbsInt:
                 res = None
             elif isinstance(a, (FuncRef, ClassRef)) and isinstance(b, (dict, set, list, tuple)):
                 res = a in b
+            elif isinstance(a, type) and isinstance(b, (set, frozenset, list, tuple, AList)):
+                its = b.items if isinstance(b, AList) else list(b)
+                if all(isinstance(x, (type, ClassRef, ExtRef)) for x in its):
+                    res = any(x is a for x in its)
             elif isinstance(a, AV) and not a.is_top and isinstance(b, (set, frozenset, list, tuple, range, dict)):
                 lo, hi = a.interval()
                 ints = [x for x in b if isinstance(x, int)]
@@ -2096,6 +2483,14 @@ class AbsInt:
         if isinstance(v, ADict):
             return bool(v.d)
         if isinstance(v, AObj):
+            if v.cls is not None:
+                for dunder in ('__bool__', '__len__'):
+                    if self.p.lookup_method(v.cls, dunder)[1] is not None:
+                        r = self.method_call(v, dunder, [], {}, node)
+                        if dunder == '__bool__':
+                            return self.truth(r, node)
+                        z = self.compare(ast.NotEq(), r, 0, node)
+                        return z if z is not None else self.decide(node, f'truth of {v!r} by its length')
             return True
         if isinstance(v, AV) and not v.is_top:
             lo, hi = v.interval()
@@ -2214,14 +2609,28 @@ class AbsInt:
                 vals = al.items[lo:hi + 1]
                 if all(v is vals[0] or (type(v) is type(vals[0]) and (_is_concrete(v) or isinstance(v, (FuncRef, ClassRef))) and v == vals[0]) for v in vals):
                     return vals[0]
+                if all(type(v) is int and v == lo + i for i, v in enumerate(vals)):
+                    return idx          # the table maps every value of the range to itself
             return Opaque('table indexed by a symbolic value')
         if isinstance(base, str) and isinstance(idx, int):
             try:
                 return base[idx]
             except IndexError:
                 raise AbsRaise('IndexError', node, implicit=True)
+        if isinstance(base, (bytes, bytearray, tuple, list, range)) and isinstance(idx, int) and not isinstance(base, AList):
+            try:
+                return base[idx]
+            except IndexError:
+                raise AbsRaise('IndexError', node, implicit=True)
+        if isinstance(base, (bytes, bytearray)) and isinstance(idx, AV) and not idx.is_top:
+            r = _table_lookup(base, idx)
+            if r is not None:
+                return r
+            return Opaque('table indexed by a symbolic value')
         if isinstance(base, Opaque):
             return Opaque('index of opaque')
+        if _DEBUG:
+            print('DBG-INDEX', type(base).__name__, type(idx).__name__, repr(idx)[:200])
         return Opaque(f'index {base!r}')
 
     def slice(self, base, lo, hi, node):
@@ -2498,6 +2907,9 @@ class AbsInt:
                 return ClassRef(args[0].cls)
             if isinstance(args[0], AList) and getattr(args[0], 'cls', None) is not None:
                 return ClassRef(args[0].cls)
+            t = self.type_of(args[0])
+            if t is not None:
+                return t
         if isinstance(e.func, ast.Name) and e.func.id == 'dir' and 'dir' not in env and len(args) == 1 and isinstance(args[0], AObj):
             names = set(args[0].attrs)
             if args[0].cls is not None:
@@ -2608,6 +3020,12 @@ class AbsInt:
                 return r if r is not None else self.decide(node, 'membership')
             if isinstance(base, (AList, ADict, str)) or (isinstance(base, tuple) and base and base[0] == 'repattern') or hasattr(base, 'segs'):
                 return self.method(base, name, list(args), dict(kwargs), node)
+            if not isinstance(base, (Opaque, AObj)):
+                # a bound method taken from an object first and called later (write = outfile.write; write(x)): the same
+                # call as outfile.write(x)
+                r = self.method(base, name, list(args), dict(kwargs), node)
+                if r is not _NO:
+                    return r
         if isinstance(f, tuple) and len(f) == 3 and f[0] == 'partial':
             pa, pk = f[2]
             kw = dict(pk)
@@ -2940,7 +3358,8 @@ class AbsInt:
             return AList([uniq[k] for k in sorted(uniq)], f.__name__)
         if f in (int,) and args and isinstance(args[0], AV):
             return args[0]
-        if getattr(self, 'str_domain', False) and isinstance(f, Opaque) and f.why == 'global repr' and len(args) == 1:
+        if getattr(self, 'str_domain', False) and (f is repr or (isinstance(f, Opaque) and f.why == 'global repr')) and len(args) == 1 \
+                and not _is_concrete(args[0]):
             from . import strdom
             r = strdom.render_repr(args[0], self)
             return strdom.norm(r) if r is not None else Opaque('repr')
@@ -3024,6 +3443,32 @@ class AbsInt:
                     if yl >= xh:
                         return args[1]
             return Opaque(f'{f.__name__} of overlapping ranges')
+        if f in (min, max) and len(args) == 1 and not kwargs and isinstance(args[0], (AList, list, tuple)) and not _is_concrete(args[0]):
+            # the largest / smallest of a list of symbolic integers: one of them when its range lies beyond all the others,
+            # else a number within the hull of the ranges
+            al = _as_alist(args[0])
+            if not al.has_var() and al.items:
+                avs = [_as_av(x) for x in al.items]
+                if all(a is not None and not a.is_top for a in avs):
+                    ivs = [a.interval() for a in avs]
+                    for i, (lo, hi) in enumerate(ivs):
+                        others = ivs[:i] + ivs[i + 1:]
+                        if (f is max and all(lo >= oh for _, oh in others)) or (f is min and all(hi <= ol for ol, _ in others)):
+                            return al.items[i]
+                    hull_lo = (max if f is max else min)(lo for lo, _ in ivs)
+                    hull_hi = (max if f is max else min)(hi for _, hi in ivs)
+                    if hull_lo >= 0:
+                        self._fresh = getattr(self, '_fresh', 0) + 1
+                        return AV.of_sym(Sym(f'{f.__name__}#{self._fresh}', hull_hi))
+            elif not al.items:
+                raise AbsRaise('ValueError', node, implicit=True)
+        if f is format and 1 <= len(args) <= 2 and not kwargs and getattr(self, 'str_domain', False) and not _is_concrete(args[0]) \
+                and (len(args) == 1 or isinstance(args[1], str)):
+            # format(value, spec) is what an f-string field does
+            from . import strdom
+            r = strdom.render(args[0], args[1] if len(args) > 1 else '', None, self)
+            if r is not None:
+                return strdom.norm(strdom.SStr([r]))
         if f is bool and len(args) == 1 and not _is_concrete(args[0]):
             return self.truth(args[0], node)
         if f is ord and len(args) == 1 and isinstance(args[0], AList):
@@ -3054,8 +3499,54 @@ class AbsInt:
             return Opaque('call of opaque')
         return Opaque(f'call {unparse(node.func) if hasattr(node, "func") else f!r}')
 
+    def type_of(self, v):
+        """type(v) for values whose exact type is known (or known to be one of the numeric ones)."""
+        if isinstance(v, (AV, Poly, LenV)) and not isinstance(v, bool):
+            if isinstance(v, AEnumInt):
+                return None
+            return ATypeOf(v)
+        if isinstance(v, (bool, int, float, str, bytes, bytearray, type(None), tuple, list, dict, set, frozenset, range)):
+            return type(v)
+        if isinstance(v, AList) and v.kind in ('list', 'tuple', 'bytes', 'bytearray', 'set', 'frozenset') \
+                and getattr(v, 'cls', None) is None:
+            return {'list': list, 'tuple': tuple, 'bytes': bytes, 'bytearray': bytearray, 'set': set, 'frozenset': frozenset}[v.kind]
+        if isinstance(v, ADict) and getattr(v, 'owner', None) is None:
+            return dict
+        if type(v).__name__ == 'SStr':
+            return str
+        return None
+
+    def _type_names(self, t):
+        """The names of the classes an isinstance() second argument stands for (evaluated, so that a local alias or a
+        hoisted name counts for what it is); None when one of them is not known."""
+        out = []
+        items = t.items if isinstance(t, AList) else (list(t) if isinstance(t, (tuple, list)) else [t])
+        for c in items:
+            if isinstance(c, type):
+                out.append(c.__name__)
+            elif isinstance(c, ExtRef):
+                out.append(c.name.split('.')[-1])
+            elif isinstance(c, ClassRef):
+                out.append(c.info.name)
+            elif isinstance(c, (tuple, list, AList)):
+                sub = self._type_names(c)
+                if sub is None:
+                    return None
+                out.extend(sub)
+            else:
+                return None
+        return out
+
     def isinstance_(self, args, node):
         v, t = args
+        tn = self._type_names(t)
+        if tn is not None:
+            names_txt = ' '.join(tn)
+        else:
+            names_txt = unparse(node.args[1])
+        return self._isinstance(v, t, names_txt, node)
+
+    def _isinstance(self, v, t, names_txt, node):
         if isinstance(v, AObj) and v.cls is not None:
             cands = t if isinstance(t, (tuple, list)) else [t]
             if isinstance(t, AList):
@@ -3066,22 +3557,22 @@ class AbsInt:
             # a plain value is never an instance of a class of the program
             return False
         if isinstance(v, Poly):
-            names = unparse(node.args[1])
+            names = names_txt
             return 'Real' in names or 'float' in names or 'Number' in names
         if hasattr(v, 'py_type'):
-            names = unparse(node.args[1])
+            names = names_txt
             return any(tok in names for tok in v.py_type.split())
         if isinstance(v, AV):
-            names = unparse(node.args[1])
+            names = names_txt
             if 'Integral' in names or 'int' in names or 'Real' in names or 'Number' in names:
                 return True
             return False
         if v is None:
-            return 'NoneType' in unparse(node.args[1])
+            return 'NoneType' in names_txt
         if isinstance(v, (bytes, bytearray)):
-            return 'bytes' in unparse(node.args[1])
+            return 'bytes' in names_txt
         if isinstance(v, bool):
-            names = unparse(node.args[1])
+            names = names_txt
             return 'Integral' in names or 'int' in names or 'Real' in names or 'bool' in names
         if isinstance(v, AList) and v.kind in ('list', 'tuple', 'bytes', 'bytearray', 'set', 'frozenset') or isinstance(v, (list, tuple)):
             # precise for the builtin container kinds
@@ -3113,11 +3604,11 @@ class AbsInt:
             if verdicts and all(x is False for x in verdicts):
                 return False
         if isinstance(v, (list, tuple, AList, ADict, dict)):
-            names = unparse(node.args[1])
+            names = names_txt
             if not any(k in names for k in ('list', 'tuple', 'dict', 'Sequence', 'Iterable', 'Mapping', 'bytearray')):
                 return False
         if isinstance(v, int) and not isinstance(v, bool) or isinstance(v, float) or isinstance(v, str):
-            names = unparse(node.args[1])
+            names = names_txt
             if isinstance(v, int):
                 return 'Integral' in names or 'int' in names or 'Real' in names
             if isinstance(v, float):
@@ -3164,9 +3655,38 @@ class AbsInt:
                 return len(v)
             except TypeError:
                 raise AbsRaise('TypeError', node, implicit=True)
+        if isinstance(v, AObj) and v.cls is not None and '__fields__' not in v.attrs:
+            if self.p.lookup_method(v.cls, '__len__')[1] is not None:
+                return self.method_call(v, '__len__', [], {}, node)
         return Opaque('len')
 
     def method(self, base, name, args, kwargs, node):
+        if isinstance(base, str) and name == 'format':
+            # more replacement fields than arguments: IndexError (KeyError for a name) whatever the values are
+            import string as _string
+            try:
+                auto = 0
+                for _, field, spec, _conv in _string.Formatter().parse(base):
+                    if field is None:
+                        continue
+                    head = field.split('.')[0].split('[')[0]
+                    if head == '':
+                        idx, auto = auto, auto + 1
+                    elif head.isdigit():
+                        idx = int(head)
+                    else:
+                        if head not in kwargs:
+                            raise AbsRaise('KeyError', node, implicit=True, msg=head)
+                        continue
+                    if idx >= len(args):
+                        raise AbsRaise('IndexError', node, implicit=True, msg='Replacement index out of range for positional args tuple')
+            except ValueError:
+                raise AbsRaise('ValueError', node, implicit=True)
+        if isinstance(base, AList) and getattr(base, 'cls', None) is not None and not name.startswith('__'):
+            # a list subclass of the program: its own methods come before the ones it inherits from list
+            o, fn = self.p.lookup_method(base.cls, name)
+            if fn is not None and not any(isinstance(d, ast.Name) and d.id == 'property' for d in fn.node.decorator_list):
+                return self.call_function(fn, [base] + list(args), dict(kwargs), node)
         if isinstance(base, AExitStack):
             return base.absint_method(self, name, list(args), dict(kwargs), node)
         if isinstance(base, AStruct):
@@ -3273,7 +3793,13 @@ class AbsInt:
                 base.items.append(args[0])
                 return None
             if name == 'extend':
-                base.items.extend(self.iterate(args[0], node, keep_vars=True))
+                # item by item: when the source raises half way, what it had produced so far is in the list
+                if isinstance(args[0], AGen):
+                    self.run_generator(args[0], base.items.append)
+                elif isinstance(args[0], ALazy):
+                    args[0].drive(self, node, base.items.append)
+                else:
+                    base.items.extend(self.iterate(args[0], node, keep_vars=True))
                 return None
             if name == 'copy':
                 return AList(base.items, base.kind)
@@ -3291,6 +3817,19 @@ class AbsInt:
                     return base.items.pop(*[a for a in args if isinstance(a, int)])
                 except IndexError:
                     raise AbsRaise('IndexError', node, implicit=True)
+            if name == 'pop' and base.kind in ('list', 'bytearray', 'deque') and (not args or (len(args) == 1 and isinstance(args[0], int))):
+                # a list with a symbolic run in it: an element outside the run is popped as usual
+                k = args[0] if args else -1
+                its = base.items
+                if k < 0 and -k <= len(its) and not any(isinstance(x, SeqVar) for x in its[k:]):
+                    return its.pop(k)
+                if k >= 0 and k < len(its) and not any(isinstance(x, SeqVar) for x in its[:k + 1]):
+                    return its.pop(k)
+                if k in (-1, 0) and isinstance(its[k], SeqVar) and its[k].minlen >= 1:
+                    sv = its[k]
+                    its[k] = _shrunk(sv)
+                    return AV.of_sym(sv.sym)
+                raise Unsupported(f'pop({k}) inside a symbolic run at line {getattr(node, "lineno", "?")}')
             if name in ('find', 'index', 'count') and len(args) == 1 and not base.has_var():
                 needle = args[0]
                 if isinstance(needle, (bytes, bytearray)) and len(needle) == 1:
@@ -3312,6 +3851,40 @@ class AbsInt:
             if name == 'clear':
                 base.items.clear()
                 return None
+            if name == 'translate' and base.kind in ('bytes', 'bytearray') and 1 <= len(args) <= 2 and not kwargs:
+                # bytes.translate(table[, delete]): every byte not in `delete` goes through the 256 byte table
+                table = args[0]
+                delete = args[1] if len(args) > 1 else b''
+                if isinstance(delete, AList) and _is_concrete(delete.items):
+                    delete = bytes(delete.items)
+                if isinstance(table, AList) and _is_concrete(table.items):
+                    table = bytes(table.items)
+                if (table is None or (isinstance(table, (bytes, bytearray)) and len(table) == 256)) and isinstance(delete, (bytes, bytearray)):
+                    out, ok = [], True
+                    dele = set(delete)
+                    for it in base.items:
+                        sym_it = AV.of_sym(it.sym) if isinstance(it, SeqVar) else _as_av(it)
+                        if sym_it is None or sym_it.is_top:
+                            ok = False
+                            break
+                        lo, hi = sym_it.interval()
+                        inside = [v in dele for v in range(lo, hi + 1)] if hi - lo < 4096 else [None]
+                        if all(inside):
+                            continue                # deleted whatever its value
+                        if any(inside):
+                            ok = False
+                            break
+                        if table is None:
+                            out.append(it)
+                            continue
+                        r = _table_lookup(table, sym_it)
+                        if r is None or (isinstance(it, SeqVar) and r is not sym_it):
+                            ok = False
+                            break
+                        out.append(it if isinstance(it, SeqVar) else r)
+                    if ok:
+                        return AList(out, base.kind)
+                return Opaque('bytes.translate')
             return Opaque(f'list.{name}')
         if isinstance(base, (list,)) and name in ('append', 'extend'):
             if name == 'append':
@@ -3341,6 +3914,20 @@ class AbsInt:
         return _NO
 
 
+def _table_lookup(table, idx):
+    """table[idx] for an index known as a range: a constant when the table is constant over the range, the index itself when
+    the table maps every value of the range to itself; else None."""
+    lo, hi = idx.interval()
+    if not (0 <= lo <= hi < len(table)):
+        return None
+    vals = list(table[lo:hi + 1])
+    if all(v == vals[0] for v in vals):
+        return vals[0]
+    if all(v == lo + i for i, v in enumerate(vals)):
+        return idx
+    return None
+
+
 def _shrunk(sv):
     nv = SeqVar(sv.name + "'", sv.sym.umax, sv.minlen - 1)
     nv.sym = sv.sym
@@ -3349,6 +3936,72 @@ def _shrunk(sv):
 
 
 VAR_MINLEN = {}     # name of a symbolic length -> its minimum
+LEN_BOUNDS = {}     # path-local: name of a symbolic length -> [lo, hi] as narrowed by the length tests decided on this path
+
+
+class assuming:
+    """with assuming(outcome): ... - compare values under the length bounds that hold on the path of that outcome."""
+    def __init__(self, out):
+        self.b = getattr(out, 'len_bounds', None) or {}
+
+    def __enter__(self):
+        self.saved = {k: list(v) for k, v in LEN_BOUNDS.items()}
+        LEN_BOUNDS.clear()
+        LEN_BOUNDS.update({k: list(v) for k, v in self.b.items()})
+        return self
+
+    def __exit__(self, *a):
+        LEN_BOUNDS.clear()
+        LEN_BOUNDS.update(self.saved)
+        return False
+
+
+def only_length_splits(outs):
+    """Several outcomes that all return and differ by nothing but tests on symbolic lengths (short payload / long payload):
+    each is then judged on its own, under its bounds."""
+    return len(outs) >= 1 and all(o.kind == 'return' for o in outs) and _length_forks(outs)
+
+
+def _length_forks(outs):
+    return len(outs) == 1 or all(o.decisions and all(str(d[2]).startswith('length:') for d in o.decisions) for o in outs)
+
+
+def same_ending_length_splits(outs):
+    """Like only_length_splits, for calls that may also raise: all outcomes end the same way (return, or the same exception)."""
+    return len(outs) >= 1 and len({(o.kind, o.exc) for o in outs}) == 1 and _length_forks(outs)
+
+
+def len_interval(lv):
+    """(lo, hi) of const + sum(len(var)) under the minimum lengths and the tests decided so far on this path."""
+    lo = hi = lv.const
+    for v in lv.vars:
+        b = LEN_BOUNDS.get(v)
+        lo += max(VAR_MINLEN.get(v, 0), b[0] if b else 0)
+        hi += b[1] if b and b[1] is not None else 10 ** 9
+    return lo, min(hi, 10 ** 9)
+
+
+def _narrow_len(op, lv, n, truth):
+    """Record what a decided test `lv op n` says about a length with one symbolic part."""
+    if len(lv.vars) != 1 or not isinstance(n, int) or isinstance(n, bool):
+        return
+    v = lv.vars[0]
+    k = n - lv.const                     # len(v) op k
+    t = type(op)
+    if not truth:
+        t = {ast.Lt: ast.GtE, ast.LtE: ast.Gt, ast.Gt: ast.LtE, ast.GtE: ast.Lt, ast.Eq: ast.NotEq, ast.NotEq: ast.Eq}.get(t)
+    b = LEN_BOUNDS.setdefault(v, [VAR_MINLEN.get(v, 0), None])
+    if t is ast.Lt:
+        b[1] = k - 1 if b[1] is None else min(b[1], k - 1)
+    elif t is ast.LtE:
+        b[1] = k if b[1] is None else min(b[1], k)
+    elif t is ast.Gt:
+        b[0] = max(b[0], k + 1)
+    elif t is ast.GtE:
+        b[0] = max(b[0], k)
+    elif t is ast.Eq:
+        b[0] = max(b[0], k)
+        b[1] = k if b[1] is None else min(b[1], k)
 
 
 class LenV:
@@ -3517,8 +4170,8 @@ def _cmp_interval(op, lo, hi):
 
 
 def _cmp_len(op, lv: LenV, n):
-    lo = lv.const + lv.minvar
-    hi = 10 ** 9
+    lo, hi = len_interval(lv)
+    lo = max(lo, lv.const + lv.minvar)
     return _cmp_interval(op, lo - n, hi - n)
 
 
